@@ -320,6 +320,18 @@ impl Session {
         }
     }
 
+    /// Length of the frame `prepare_buffer` would build for `data`: the MAC answers queued for
+    /// this uplink travel in FOpts (or as the payload, on port 0) next to the application payload.
+    pub(crate) fn uplink_len(&self, data: &SendData<'_>) -> usize {
+        use lorawan::packet_length::phy::{MHDR_LEN, MIC_LEN, mac::FPORT_LEN, mac::fhdr::FHDR_MIN_LEN};
+        MHDR_LEN
+            + FHDR_MIN_LEN
+            + self.uplink.mac_commands().len()
+            + FPORT_LEN
+            + data.data.len()
+            + MIC_LEN
+    }
+
     pub(crate) fn prepare_buffer<const N: usize>(
         &mut self,
         data: &SendData<'_>,
